@@ -86,7 +86,8 @@ func (r *schemaLoader) transitiveResolver(basePath string, ref Ref) *schemaLoade
 
 	baseRef := MustCreateRef(basePath)
 	currentRef := normalizeRef(&ref, basePath)
-	if strings.HasPrefix(currentRef.String(), baseRef.String()) {
+	if currentRef.RemoteURI() == baseRef.RemoteURI() {
+		// same document
 		return r
 	}
 
